@@ -76,6 +76,8 @@ pub struct Member<C: MlsConfig> {
     pub name: String,
     pub client: Client<C>,
     pub group: Option<Group<C>>,
+    /// successor / branch group (C17)
+    pub sub: Option<Group<C>>,
     pub ctl: Ctl,
     pub log: Log,
     pub gstore: VGroupStorage,
@@ -297,6 +299,11 @@ impl<C: MlsConfig, E: ExternalMlsConfig + Clone> World<C, E> {
             "stored_epochs": stored,
             "stored_max": m.gstore.probe_max(&gid),
             "stored_state": stored_state.as_ref().map(|s| it.id(s)),
+            "sub": m.sub.as_ref().map(|sg| {
+                let names: Vec<String> = sg.roster().members_iter().map(|mm| mm.signing_identity.credential.as_basic().map(|b| String::from_utf8_lossy(&b.identifier).to_string()).unwrap_or_default()).collect();
+                json!({"epoch": sg.current_epoch(), "gid": hex::encode(sg.group_id()), "members": names,
+                       "auth": sg.epoch_authenticator().ok().map(|a| hex::encode(a.as_bytes())), "suite": u16::from(sg.cipher_suite())})
+            }),
         })
     }
 
@@ -929,6 +936,90 @@ impl<C: MlsConfig, E: ExternalMlsConfig + Clone> World<C, E> {
                     ExternalReceivedMessage::KeyPackage(_) => json!({"kind": "key_package"}),
                 })
             }
+            "reinit_kp" => {
+                let g = grp!().clone();
+                // "as": come back under the identity of another configured party (replaced identity)
+                let alt = op["as"].as_str().and_then(|n| self.members.get(n)).map(|m| (m.signer.clone(), m.identity.clone()));
+                let rc = match alt {
+                    Some((sk, idn)) => mls!(g.get_reinit_client(Some(sk), Some(idn))),
+                    None => mls!(g.get_reinit_client(None, None)),
+                };
+                let kp = mls!(rc.generate_key_package(None));
+                self.msgs.insert(id, mls!(kp.to_bytes()));
+                Ok(json!({}))
+            }
+            "reinit_commit" => {
+                let mut kps = vec![];
+                for k in op["kps"].as_array().cloned().unwrap_or_default() {
+                    kps.push(self.msg(k.as_str().unwrap_or(""))?);
+                }
+                let g = grp!().clone();
+                let rc = mls!(g.get_reinit_client(None, None));
+                let (ng, welcomes) = mls!(rc.commit(kps, ExtensionList::new(), None));
+                for (i, w) in welcomes.iter().enumerate() {
+                    self.msgs.insert(format!("{id}.w{i}"), mls!(w.to_bytes()));
+                }
+                self.trees.insert(format!("{id}.tree"), mls!(ng.export_tree().to_bytes()));
+                self.members.get_mut(&who).ok_or("no such member")?.sub = Some(ng);
+                Ok(json!({"welcomes": welcomes.len()}))
+            }
+            "reinit_join" | "join_subgroup" => {
+                let c = op["welcome_any"].as_str().unwrap_or("").to_string();
+                let mut cands = vec![];
+                let mut i = 0;
+                while self.msgs.contains_key(&format!("{c}.w{i}")) {
+                    cands.push(format!("{c}.w{i}"));
+                    i += 1;
+                }
+                if let Some(w) = op["welcome"].as_str() {
+                    cands.push(w.to_string());
+                }
+                let tree = match op["tree"].as_str() {
+                    Some(t) => Some(mls!(ExportedTree::from_bytes(self.trees.get(t).ok_or("no tree")?)).into_owned()),
+                    None => None,
+                };
+                let mut last = "NoWelcome".to_string();
+                for wid in cands {
+                    let w = self.msg(&wid)?;
+                    let g = grp!().clone();
+                    let alt = op["as"].as_str().and_then(|n| self.members.get(n)).map(|m| (m.signer.clone(), m.identity.clone()));
+                    let r = if kind == "reinit_join" {
+                        match (match alt { Some((sk, idn)) => g.get_reinit_client(Some(sk), Some(idn)), None => g.get_reinit_client(None, None) }) {
+                            Ok(rc) => rc.join(&w, tree.clone(), None).map(|x| x.0),
+                            Err(e) => Err(e),
+                        }
+                    } else {
+                        g.join_subgroup(&w, tree.clone(), None).map(|x| x.0)
+                    };
+                    match r {
+                        Ok(ng) => {
+                            self.members.get_mut(&who).ok_or("no such member")?.sub = Some(ng);
+                            return Ok(json!({"welcome": wid}));
+                        }
+                        Err(e) => last = err_name(&e),
+                    }
+                }
+                Err(last)
+            }
+            "branch" => {
+                let mut kps = vec![];
+                for k in op["kps"].as_array().cloned().unwrap_or_default() {
+                    kps.push(self.msg(k.as_str().unwrap_or(""))?);
+                }
+                let gid = hex::decode(op["gid"].as_str().unwrap_or("b0")).unwrap_or_default();
+                let (ng, welcomes) = mls!(grp!().branch(gid, kps, None));
+                for (i, w) in welcomes.iter().enumerate() {
+                    self.msgs.insert(format!("{id}.w{i}"), mls!(w.to_bytes()));
+                }
+                self.trees.insert(format!("{id}.tree"), mls!(ng.export_tree().to_bytes()));
+                self.members.get_mut(&who).ok_or("no such member")?.sub = Some(ng);
+                Ok(json!({"welcomes": welcomes.len()}))
+            }
+            "swap" => {
+                let m = self.members.get_mut(&who).ok_or("no such member")?;
+                std::mem::swap(&mut m.group, &mut m.sub);
+                Ok(json!({}))
+            }
             "obs_propose" => {
                 // the observer acts as an EXTERNAL SENDER (it was created with signer_of)
                 let kind = op["kind"].as_str().unwrap_or("").to_string();
@@ -991,7 +1082,7 @@ pub fn run_world<C: MlsConfig, E: ExternalMlsConfig + Clone + 'static>(script: &
         let client = mk(&spec, &parts, suite);
         world.members.insert(
             spec.name.clone(),
-            Member { name: spec.name.clone(), client, group: None, ctl: parts.ctl, log: parts.log, gstore: parts.gstore, kpstore: parts.kpstore, pskstore: parts.pskstore, rules: parts.rules, suite, signer: parts.signer, identity: parts.identity },
+            Member { name: spec.name.clone(), client, group: None, sub: None, ctl: parts.ctl, log: parts.log, gstore: parts.gstore, kpstore: parts.kpstore, pskstore: parts.pskstore, rules: parts.rules, suite, signer: parts.signer, identity: parts.identity },
         );
     }
     let ops = script["ops"].as_array().cloned().unwrap_or_default();
